@@ -181,7 +181,9 @@ def run(rep: common.Report, tier: str, seed: int, replay=None) -> int:
                 try:
                     gx_, gy_, gJ_ = sol.grid_current_density(grid_shape=(14, 11), units="A / m", with_units=False)
                     iJ_ = sol.interp_current_density(Pphys[:, :2], units="A / m", with_units=False)
-                    grids[key_] = (np.asarray(gJ_, dtype=float), np.asarray(iJ_, dtype=float))
+                    psi_i = np.abs(np.asarray(sol.interp_order_parameter(Pphys[:, :2])))
+                    vort = np.asarray(sol.vorticity.to("A / m ** 2").magnitude, dtype=float)
+                    grids[key_] = (np.asarray(gJ_, dtype=float), np.asarray(iJ_, dtype=float), psi_i, vort)
                 except Exception as e:  # noqa: BLE001
                     grids[key_] = f"{type(e).__name__}: {e}"[:160]
                 Atot = np.asarray(sol.vector_potential_at_position(Pphys, units="T * m", return_sum=True, with_units=False))
@@ -233,14 +235,17 @@ def run(rep: common.Report, tier: str, seed: int, replay=None) -> int:
                         rep.violation(f"the {nm_} computed from the solution at fixed physical points depends on the unit system", case)
                 ga, gb = grids.get(lu), grids.get("um")
                 if isinstance(ga, str) or isinstance(gb, str):
+                    rep.coverage["postprocessing_failed"] = str(ga if isinstance(ga, str) else gb)
                     if isinstance(ga, str) != isinstance(gb, str):
                         rep.violation("grid / interp_current_density works in one unit system and fails in another", {**case, "error": ga if isinstance(ga, str) else gb})
                 elif ga is not None and gb is not None:
-                    for nm_, a_, b_ in (("grid_current_density", ga[0], gb[0]), ("interp_current_density", ga[1], gb[1])):
+                    rep.coverage["postprocessing_outputs_compared"] = rep.coverage.get("postprocessing_outputs_compared", 0) + 4
+                    for nm_, a_, b_ in (("grid_current_density", ga[0], gb[0]), ("interp_current_density", ga[1], gb[1]),
+                                        ("interp_order_parameter (modulus)", ga[2], gb[2]), ("vorticity (A / m^2)", ga[3], gb[3])):
                         okm = np.isfinite(a_) & np.isfinite(b_)
                         if a_.shape != b_.shape or not np.array_equal(np.isfinite(a_), np.isfinite(b_)) or \
                                 np.max(np.abs(a_[okm] - b_[okm])) > 1e-5 * (np.max(np.abs(b_[okm])) + 1e-300):
-                            rep.violation(f"Solution.{nm_}(units='A / m') depends on the unit system the problem was stated in", case)
+                            rep.violation(f"Solution.{nm_} (physical units) depends on the unit system the problem was stated in", case)
                 rep.count(len(ref))
                 rep.nontrivial(("runs", lu, screening))
         rep.sample({"systems": systems, "screening": screening, "frames": len(ref), "B_tesla": B_T, "I_amp": I_A})
